@@ -22,7 +22,7 @@ fuzz_target!(|data: &[u8]| {
         1 => Some(1024 << (s[7] % 16)),
         _ => None,
     };
-    if let Err(e) = drive_and_reuse(&data[8..], &entry, limit, None) {
+    if let Err(e) = drive_and_reuse(&data[8..], &entry, limit, None, s[6] & 0x80 != 0) {
         panic!("C03: {e}");
     }
 });
